@@ -118,12 +118,23 @@ static bool h_delay(void* p, IMasterConnection con, CS101_ASDU asdu, CP16Time2a 
 static bool h_asdu(void* p, IMasterConnection con, CS101_ASDU asdu)
 { printf("cb asdu c%d asdu=", con_index(con)); print_asdu(asdu); printf("\n"); return cfg.hret; }
 static bool h_request(void* p, const char* ip) { printf("req %s ret=%d\n", ip, cfg.reqret); return cfg.reqret; }
+static int send_on_act = 0;
 static int close_on_open = 0;   /* (C18) `closeonopen <0|1>`: the application turns every peer away from inside the OPENED notification */
 static void h_event(void* p, IMasterConnection con, CS104_PeerConnectionEvent ev)
 {
     static const char* n[] = {"OPENED", "CLOSED", "ACTIVATED", "DEACTIVATED"};
     printf("ev c%d %s\n", con_index(con), n[ev]);
     if (close_on_open && ev == CS104_CON_EVENT_CONNECTION_OPENED) IMasterConnection_close(con);
+    if (send_on_act && ev == CS104_CON_EVENT_ACTIVATED) {
+        /* (C07) `sendonact <0|1>`: the application sends spontaneous data at once when it is told that the connection was activated */
+        CS101_AppLayerParameters alp = IMasterConnection_getApplicationLayerParameters(con);
+        CS101_ASDU a = CS101_ASDU_create(alp, false, CS101_COT_SPONTANEOUS, 0, 1, false, false);
+        InformationObject io = (InformationObject) SinglePointInformation_create(NULL, 4242, true, IEC60870_QUALITY_GOOD);
+        CS101_ASDU_addInformationObject(a, io); InformationObject_destroy(io);
+        bool r = IMasterConnection_sendASDU(con, a);
+        printf("send c%d onact ret=%d\n", con_index(con), r);
+        CS101_ASDU_destroy(a);
+    }
 }
 static void h_raw(void* p, IMasterConnection con, uint8_t* msg, int n, bool sent)
 { printf("raw c%d %s ", con_index(con), sent ? "out" : "in"); puthex(msg, n); printf("\n"); }
@@ -289,6 +300,7 @@ int main(void)
             free(b);
         }
         else if (!strcmp(cmd, "closeonopen")) { sscanf(line, "%*s %d", &close_on_open); }
+        else if (!strcmp(cmd, "sendonact")) { sscanf(line, "%*s %d", &send_on_act); }
         else if (!strcmp(cmd, "peerclose")) { int ci; sscanf(line, "%*s c%d", &ci); if (ci >= 0 && ci < nsocks && socks[ci]) Sim_peerClose(socks[ci]); }
         else if (!strcmp(cmd, "wmode")) { int ci, m; sscanf(line, "%*s c%d %d", &ci, &m); if (ci >= 0 && ci < nsocks && socks[ci]) socks[ci]->writeMode = m; }
         else if (!strcmp(cmd, "appclose")) { int ci; sscanf(line, "%*s c%d", &ci); MasterConnection mc = con_of(ci); if (mc) IMasterConnection_close(&mc->iMasterConnection); }
